@@ -67,26 +67,27 @@ def oneshot_cat(sid, codec, defMode, chunk, cut, **slots):
     return "a value was returned for a proper prefix"
 
 
-def streaming(sid, k, seekable, strict_close):
-    """Stream that delivers k octets, stays open for one poll, then is closed by the writer."""
+def streaming(sid, k, seekable, strict_close, polls=1):
+    """Stream that delivers k octets, stays open for `polls` polls, then is closed by the writer."""
     st = BY_ID[sid]
     spec, enc = _first_item(st)
     if k >= len(enc):
         raise Skip()
     stream = vs.ArrivalStream(enc[:k], [k], eof_with_last=False, seekable=seekable)
     it = iter(ber_decoder.StreamingDecoder(stream, asn1Spec=spec))
-    # phase 1: open stream -> only underrun objects
-    try:
-        o = next(it)
-    except StopIteration:
-        if k == 0:
-            # nothing arrived and nothing can be said yet: stopping here would mean "clean end of stream" while it is still open
-            return "iteration stopped while the stream was still open"
-        return "iteration stopped on a truncated item"
-    except error.PyAsn1Error as e:
-        return "error %s raised while the stream was still open" % type(e).__name__
-    if not isinstance(o, error.SubstrateUnderrunError):
-        return "a value was yielded for a proper prefix"
+    # phase 1: open stream -> only underrun objects, however often it is polled
+    for _poll in range(polls):
+        try:
+            o = next(it)
+        except StopIteration:
+            if k == 0:
+                # nothing arrived and nothing can be said yet: stopping here would mean "clean end of stream" while it is still open
+                return "iteration stopped while the stream was still open"
+            return "iteration stopped on a truncated item"
+        except error.PyAsn1Error as e:
+            return "error %s raised while the stream was still open" % type(e).__name__
+        if not isinstance(o, error.SubstrateUnderrunError):
+            return "a value was yielded for a proper prefix"
     # phase 2: writer closes -> EndOfStreamError (k > 0) / clean stop (k == 0: no item was started)
     while stream.advance():
         pass
@@ -117,7 +118,7 @@ for st in STREAMS:
     tiers = ("quick", "thorough") if st.id in QUICK else ("thorough",)
     OBLIGATIONS.append(Obl("oneshot:%s" % st.id, oneshot, {"sid": C(st.id), "k": I(0, n - 1), "with_spec": B, "how": I(0, 2)}, budget=120, tiers=tiers,
                            doc="every proper prefix of %s, one-shot decode, three presentations" % st.doc))
-    OBLIGATIONS.append(Obl("streaming:%s" % st.id, streaming, {"sid": C(st.id), "k": I(0, n - 1), "seekable": B, "strict_close": B}, budget=120, tiers=tiers,
+    OBLIGATIONS.append(Obl("streaming:%s" % st.id, streaming, {"sid": C(st.id), "k": I(0, n - 1), "seekable": B, "strict_close": B, "polls": I(1, 3)}, budget=120, tiers=tiers,
                            doc="every proper prefix of %s on a non-blocking stream: underrun while open, end-of-stream error once closed" % st.doc))
 for e in all_entries():
     quick = e.id in QUICK_IDS and (not e.has("tagged") or e.id in ("int.E", "octs.EI", "bool.EE")) and e.id not in ("seq_nest", "seqof_seq", "set_mixed", "set")
